@@ -2,3 +2,5 @@ import Proofs.Duration
 import Proofs.Timeline
 import Proofs.Limits
 import Proofs.SeqInv
+import Proofs.Layout
+import Proofs.Geometry
